@@ -11,6 +11,8 @@ from . import tr
 from . import containers as ct
 from . import mergerules as mr
 
+from .common import Guard  # noqa: E402
+
 PROP = 'C19'
 DECIDED = [
     'R1: ComposedNode.__getstate__ removes the child map from a *copy* of __dict__ and returns that copy.',
@@ -297,11 +299,13 @@ def r5(repo, run):
 
 
 def check(repo, run, tier):
-    r1(repo, run)
-    r2(repo, run)
-    r3(repo, run)
-    r4(repo, run)
-    r5(repo, run)
+    g = Guard()
+    g(r1, repo, run)
+    g(r2, repo, run)
+    g(r3, repo, run)
+    g(r4, repo, run)
+    g(r5, repo, run)
+    g.done()
 
 
 def mutants(repo):
